@@ -61,7 +61,7 @@ KINDS = [(6, "req"), (2, "rewrite_other_size"), (2, "rewrite_same_size"), (1, "t
 MOD_KINDS = [k for _, k in KINDS[1:]]
 INM_FORMS = [(2, "none"), (3, "strong"), (2, "weak"), (3, "list"), (1, "star")]
 POS = ["first", "middle", "last"]
-SEPS = [", ", ",", " , "]
+SEPS = [", ", ",", " , ", ",\t", ", , ", ",,"]      # the list grammar: OWS around commas, empty elements are skipped by recipients (RFC 7230 7)
 JUNK = [('"0a1b2c3d"', '"junk-2"'), ('W/"0a1b2c3d"', '"junk-2"'), ('"0a1b2c3d"', 'W/"junk-2"'), ('W/"0a1b2c3d"', 'W/"junk-2"'),
         ('"caf\xe9-7"', 'W/"\xfc"')]       # entity tags may contain obs-text (bytes >= 0x80)
 SEND_LATS = (0.0, 0.0, 0.0, 0.2)
@@ -207,6 +207,7 @@ class C14(Prop):
                     op["junk"] = t.draw(len(JUNK))
                     op["njunk"] = 2 if op["pos"] == "middle" else 1 + t.draw(2)
                     op["sep"] = t.choice(SEPS)
+                    op["lead_empty"] = t.draw(6) == 0
                 if op["inm"] == "none" and not op["ims"]:
                     op["j"] = None
                 if op["inm"] in ("strong", "weak", "list") and not op["ims"] and t.draw(5) == 0:
@@ -351,7 +352,10 @@ class C14(Prop):
             members = junk + [own]
         else:
             members = [junk[0], own, junk[1]]
-        return op["sep"].join(members), "list(%s,%s)" % (op["pos"], op["own"])
+        v = op["sep"].join(members)
+        if op.get("lead_empty"):
+            v = ", " + v                    # a leading empty element
+        return v, "list(%s,%s)" % (op["pos"], op["own"])
 
     def _request(self, plan, ctx, apps, f, op, k, now, held, hist, fs=None):
         self._extra_ms = 0
